@@ -15,6 +15,8 @@ import (
 
 func init() { props["C06"] = runC06 }
 
+var c06ExtraCorpus []string
+
 // cost profile of one closure: @0 is replaced by a call form
 // fast: quick(e) — never switches; slow: slow(e) — switches at element 12;
 // slowFirst: slow for the first 12 elements only; fastFirst: fast for the first 12, slow afterwards
@@ -175,6 +177,7 @@ func runC06(c *Ctx) {
 		fastCases = append(fastCases, pc.fast)
 		profCases = append(profCases, pc.prof)
 	}
+	corpus = append(corpus, c06ExtraCorpus...)
 	for i, s := range corpus {
 		mk(i, s, "slow", gmps[i%len(gmps)], true, 2)
 	}
@@ -275,4 +278,14 @@ func trunc(s string, n int) string {
 		return s[:n] + "…"
 	}
 	return s
+}
+
+func init() {
+	// corpus additions (found by the C08 builder): an upstream error item passing a parallel stage
+	c06ExtraCorpus = append(c06ExtraCorpus,
+		"numbers(1000).map(e -> if @C(e) = 20 then throw(\"x\") else e).combineN(3, l -> l[0] * 2 + l[2] + 3).map(e -> @C(e) * 2).top(30)",
+		"numbers(1000).map(e -> if @C(e) = 20 then throw(\"x\") else e).combine((p, q) -> p * 2 + q).map(e -> @C(e) * 2).sum()",
+		"numbers(1000).map(e -> if @C(e) = 20 then throw(\"x\") else e).combine3((p, q, r) -> p * 2 + q + r).accept(e -> @C(e) > 0).size()",
+		"numbers(1000).map(e -> if @C(e) = 20 then throw(\"x\") else e).iir(e -> e, (e, l) -> l + e).map(e -> @C(e) * 2).last()",
+		"numbers(1000).map(e -> if @C(e) = 20 then throw(\"x\") else e).skip(3).map(e -> @C(e) * 2).size()")
 }
